@@ -14,9 +14,17 @@ Generator : histories of job-table operations over xonsh/procs/jobs.py, executed
             command granularity).  Three families: (a) every history of length <= 4 (quick) / 5
             (thorough) over a fixed 22-operation alphabet that starts with an add_job, enumerated
             completely; (b) Hypothesis RuleBasedStateMachine histories of up to 40 / 60 steps;
-            (c) the same model against real children: `sleep 300 &` run through the real Execer
-            (specs._run_command_pipeline -> add_job), SIGKILL as process exit, jobs / disown /
-            purges / refused fg and bg, compared with /proc after every step.
+            (c) the same model against real children: background pipelines of `sleep 300`, plain,
+            two-stage and mixed with a callable alias (`vgen | sleep 300 &`, `sleep 300 | vgen |
+            sleep 300 &`), run through the real Execer (specs._run_command_pipeline -> add_job),
+            SIGKILL as process exit, jobs / disown / purges / refused fg and bg; after every step
+            every running sleep child found in /proc must belong to exactly one registered job (or
+            to a disowned one).
+            Interleavings INSIDE one operation: an `arm` operation arms the scripted poll() of a stub;
+            the next command that polls it (every clean-up does) is interrupted inside that poll() and
+            the listed operations of the *other* actor (main thread <-> alias thread; process exits)
+            run to completion from that actor's thread before poll() returns.  Deterministic and
+            replayable from the JSON operation list.
 Oracle    : a reference model written from the property text and docs/tutorial.rst "Job Control":
             per table a dict of entries (live or finished-but-not-yet-purged) and an MRU list.
             After every step, for the main table and for the alias thread's own table: the deque has
@@ -31,7 +39,11 @@ Oracle    : a reference model written from the property text and docs/tutorial.r
             an error and removes nothing; the `jobs` listing has one line per live job, each exactly
             once, `+` / `-` on the two MRU heads; jobs/bg/disown issued from the alias thread act on
             the main table and leave that thread's own table object in place; operations on one
-            table never change the other.
+            table never change the other.  A command interrupted inside a poll() must end in the
+            state of "nested operations first, then the command" (the nested operations see the
+            table before the command has changed anything: every clean-up polls first and mutates
+            afterwards); only a job that exits inside that window may survive the command as a
+            finished-unpurged entry (the command may have polled it while it was alive).
 """
 
 from __future__ import annotations
@@ -57,7 +69,9 @@ RULE = ("history = sequence of job-table operations (add_job, process exit, jobs
         "alias-thread respawn), each run on the main thread or in an alias-like worker thread in lock-step, against "
         "stub processes; all histories of length <= 4 (quick) / 5 (thorough) over a fixed 22-operation alphabet "
         "that start with an add_job are enumerated, longer ones (<= 40 / 60 steps) are drawn by a Hypothesis state "
-        "machine, and a third family drives real `sleep 300 &` children through the Execer; non-trivial = the "
+        "machine, and a third family drives real background pipelines (`sleep 300`, also mixed with a callable alias) "
+        "through the Execer; `arm` operations make the other actor act inside a poll() of the running command "
+        "(intra-operation interleavings); non-trivial = the "
         "history contains a step executed on a table holding >= 2 live jobs or a finished job not yet purged; "
         "distinct = hash of the operation list")
 HOOKS = False
@@ -977,6 +991,8 @@ def minimize_history(case, bucket, budget=4000):
 def _record(st, h, family):
     nt = h.nontrivial_steps > 0
     labels = [family, "len:%02d-%02d" % (h.steps // 10 * 10, h.steps // 10 * 10 + 9)]
+    if h.windows:
+        labels.append("history-with-interleaving-inside-an-operation")
     sample = None
     if nt and 4 <= h.steps <= 14 and st.evaluations >= _ctx.get("sample_after", 0):
         sample = {"ops": h.ops}
@@ -1283,16 +1299,57 @@ def _own_sleep(pid):
     return head.split("(", 1)[1] == "sleep" and int(tail.split()[1]) == os.getpid()
 
 
+REAL_KINDS = {
+    # every background pipeline with at least one external command must be registered as one job,
+    # whatever mixture of callable aliases and external commands it is made of
+    "plain": "sleep 300 &",
+    "two": "sleep 300 | sleep 300 &",
+    "alias-first": "vgen | sleep 300 &",
+    "alias-mid": "sleep 300 | vgen | sleep 300 &",
+}
+
+
+def _vgen(args, stdin=None, stdout=None):
+    """Callable alias used in mixed pipelines: writes a line, never reads, returns at once (an alias that
+    waits for end-of-input could keep its non-daemon thread - and this worker process - alive for ever)."""
+    stdout.write("hello\n")
+    return 0
+
+
+def _own_sleeps():
+    """pids of the running (not zombie) `sleep` children of this process, from /proc."""
+    out = set()
+    me = os.getpid()
+    for d in os.listdir("/proc"):
+        if not d.isdigit():
+            continue
+        try:
+            with open("/proc/%s/stat" % d) as f:
+                head, tail = f.read().rsplit(")", 1)
+        except OSError:
+            continue
+        t = tail.split()
+        if head.split("(", 1)[1] == "sleep" and int(t[1]) == me and t[0] not in ("Z", "X"):
+            out.add(int(d))
+    return out
+
+
 class RealHarness(Harness):
-    """add = run `sleep 300 &` through the real Execer (-> specs._run_command_pipeline -> add_job),
-    finish = SIGKILL that child and wait until the kernel reports it dead.  fg / bg are only issued
-    with arguments that must be refused (a successful fg would wait for the sleep)."""
+    """add = run a background pipeline of real `sleep` children (optionally mixed with a callable alias)
+    through the real Execer (-> specs._run_command_pipeline -> add_job); finish = SIGKILL its children and
+    wait until the kernel reports them dead.  After every step /proc is compared with the table: every
+    running sleep child belongs to exactly one registered job or to a disowned one.  fg / bg are only
+    issued with arguments that must be refused (a successful fg would wait for the sleep)."""
 
     def __init__(self, tolerate=DEFAULT_TOLERATE):
-        self.own_pids = set()
-        self.started = []
+        self.pids = {}          # MJob.key -> pids of its sleep children
+        self.popens = []
         self.disowned = []
         super().__init__(tolerate=tolerate)
+        self.XSH.aliases["vgen"] = _vgen
+        stray = _own_sleeps()
+        if stray:
+            raise common.HarnessError("sleep children left over from an earlier history: %r" % (stray,))
 
     def _guard(self, name):
         real = os.kill if name == "kill" else os.killpg
@@ -1307,18 +1364,19 @@ class RealHarness(Harness):
         return guarded
 
     def close(self):
-        for p in self.started:
+        for pid in _own_sleeps():       # includes children xonsh started but did not register
             try:
-                if p.poll() is None:
-                    self._real_kill(p.pid, signal.SIGKILL)
-                p.wait()
+                self._real_kill(pid, signal.SIGKILL)
+            except OSError:
+                pass
+        for p in self.popens:
+            try:
+                p.wait(timeout=10)
             except Exception:  # noqa: BLE001
                 pass
-        # children that xonsh started but did not register (possible only on a broken tree)
-        for d in os.listdir("/proc"):
+        for d in os.listdir("/proc"):   # reap what no Popen object of a registered job owns
             if d.isdigit() and _own_sleep(int(d)):
                 try:
-                    self._real_kill(int(d), signal.SIGKILL)
                     os.waitpid(int(d), 0)
                 except OSError:
                     pass
@@ -1327,39 +1385,45 @@ class RealHarness(Harness):
     def _op_add(self, op):
         from vlib import session
 
+        kind = op.get("kind", "plain")
+        line = REAL_KINDS[kind]
         T = self.tables["m"]
         old = [mj.info for mj in T.entries.values()]
-        self._invoke("m", lambda: session.xexec("sleep 300 &\n"))
+        before = _own_sleeps()
+        self._invoke("m", lambda: session.xexec(line + "\n"))
         T.purge()
         num = T.lowest_free()
         jobs = self.XSH.all_jobs
         new = sorted(n for n, j in jobs.items() if not any(j is o for o in old))
+        spawned = sorted(_own_sleeps() - before)
+        for n in new:
+            for p in getattr(jobs[n].get("pipeline"), "procs", ()):
+                if isinstance(getattr(p, "pid", None), int):
+                    self.popens.append(p)
+        if len(spawned) != line.count("sleep"):
+            raise common.HarnessError("`%s` started %d sleep children, expected %d"
+                                      % (line, len(spawned), line.count("sleep")))
         if new != [num]:
-            for n in new:
-                self._adopt(jobs[n])
-            self._fail("job-number", "`sleep 300 &` registered under %r, reference: exactly once under %d "
-                       "(lowest free)" % (new, num))
+            self._fail("job-number", "background pipeline `%s` (sleep children %r) registered under %r, reference: "
+                       "exactly once under %d (lowest free)" % (line, spawned, new, num))
         info = jobs[num]
-        proc = self._adopt(info)
         key = self.nkeys
         self.nkeys += 1
-        T.entries[num] = MJob(key, info, proc, True, "running", tag=str(proc.pid))
+        self.pids[key] = spawned
+        T.entries[num] = MJob(key, info, info["obj"], True, "running", tag=str(spawned[-1]))
         T.mru.insert(0, num)
-        if info.get("pids") != [proc.pid]:
-            self._fail("wrong-job", "job %d lists pids %r for process %d" % (num, info.get("pids"), proc.pid))
-
-    def _adopt(self, info):
-        proc = info["obj"]
-        self.started.append(proc)
-        self.own_pids.add(proc.pid)
-        return proc
+        if sorted(p for p in info.get("pids", ()) if p is not None) != spawned:
+            self._fail("wrong-job", "job %d (`%s`) lists pids %r, its sleep children are %r"
+                       % (num, line, info.get("pids"), spawned))
 
     def _op_finish(self, op):
         mj = self.tables["m"].entries.get(op["num"])
         if mj is None or not mj.alive:
             return
-        self._real_kill(mj.proc.pid, signal.SIGKILL)
-        os.waitid(os.P_PID, mj.proc.pid, os.WEXITED | os.WNOWAIT)     # dead, not yet reaped: poll() will see it
+        for pid in self.pids[mj.key]:
+            self._real_kill(pid, signal.SIGKILL)
+        for pid in self.pids[mj.key]:
+            os.waitid(os.P_PID, pid, os.WEXITED | os.WNOWAIT)     # dead, not yet reaped: poll() will see it
         mj.alive = False
 
     def _op_disown(self, op):
@@ -1371,12 +1435,24 @@ class RealHarness(Harness):
 
     def _check_tables(self, op):
         super()._check_tables(op)
-        for mj in self.tables["m"].entries.values():
-            if mj.alive and _proc_state(mj.proc.pid) in (None, "Z", "X"):
-                self._fail("process-gone", "process %d of a registered live job is gone" % mj.proc.pid)
+        running = _own_sleeps()
+        jobs = self.XSH.all_jobs
+        expected = set()
+        for n, mj in self.tables["m"].entries.items():
+            if not mj.alive:
+                continue
+            for pid in self.pids[mj.key]:
+                expected.add(pid)
+                owners = [k for k, j in jobs.items() if pid in (j.get("pids") or ())]
+                if owners != [n]:
+                    self._fail("process-not-tracked", "running background process %d belongs to jobs %r of the table, "
+                               "reference: exactly job %d" % (pid, owners, n))
         for mj in self.disowned:
-            if _proc_state(mj.proc.pid) in (None, "Z", "X"):
-                self._fail("process-gone", "process %d died although its job was only disowned" % mj.proc.pid)
+            expected.update(self.pids[mj.key])
+        if running != expected:
+            self._fail("process-gone" if expected - running else "process-not-tracked",
+                       "running sleep children %r, reference (registered live jobs + disowned jobs) %r"
+                       % (sorted(running), sorted(expected)))
 
     def _resume(self, op, name):
         T = self.tables["m"]
@@ -1386,9 +1462,10 @@ class RealHarness(Harness):
         super()._resume(op, name)
 
     def _op_clean(self, op):
-        raise _InvalidHistory("clean_jobs is not part of the real-process family (it hangs up every job)")
+        raise _InvalidHistory("not part of the real-process family")
 
     _op_respawn = _op_clean
+    _op_arm = _op_clean
 
 
 def make_real_machine():
@@ -1397,6 +1474,7 @@ def make_real_machine():
 
     actors = st.sampled_from(["m", "w"])
     refused = st.sampled_from([["abc"], ["0"], ["-1"], ["99"], ["1", "2"], ["%1"], ["+", "-"]])
+    kinds = st.sampled_from(sorted(REAL_KINDS))
 
     class RealJobsMachine(RuleBasedStateMachine):
         def __init__(self):
@@ -1412,15 +1490,15 @@ def make_real_machine():
             if h.failed:
                 _ctx["frozen"] = True
 
-        @initialize(n=st.integers(1, 3))
-        def start(self, n):
-            for _ in range(n):
-                self.h.apply({"op": "add", "actor": "m", "bg": True, "real": True})
+        @initialize(kinds_=st.lists(kinds, min_size=1, max_size=3))
+        def start(self, kinds_):
+            for k in kinds_:
+                self.h.apply({"op": "add", "actor": "m", "bg": True, "kind": k})
 
         @precondition(lambda self: len(self.h.tables["m"].mru) < 6)
-        @rule()
-        def add(self):
-            self.h.apply({"op": "add", "actor": "m", "bg": True, "real": True})
+        @rule(k=kinds)
+        def add(self, k):
+            self.h.apply({"op": "add", "actor": "m", "bg": True, "kind": k})
 
         @precondition(lambda self: bool(self.h.tables["m"].live()))
         @rule(pick=st.integers(0, 31))
@@ -1522,6 +1600,7 @@ def main(run):
     lap("real-processes")
     run.extra["steps_executed"] = run.stats.hist.get("steps", 0)
     run.extra["nontrivial_steps"] = run.stats.hist.get("step-nontrivial", 0)
+    run.extra["poll_windows_opened"] = run.stats.hist.get("poll-window-opened", 0)
     run.assumptions += [
         "process objects are stubs (pid None, pgrp None, scripted poll()); pipelines are stubs recording resume(): "
         "waiting on, signalling and terminal hand-over of real processes are outside this check",
@@ -1533,6 +1612,13 @@ def main(run):
         "disown is not required to purge finished jobs first: a finished, not yet purged entry may still be "
         "selected or named (both readings accepted)",
         "arguments that only int() accepts ('+1', '01', ' 2') may select that job or be refused",
+        "intra-operation interleavings are forced at poll() of stub processes only (the one blocking call inside "
+        "the clean-up); the nested operations run to completion there, from the other actor's thread; a nested "
+        "operation that belongs to the thread that is itself inside poll() is skipped",
+        "a command interrupted inside poll() must end as 'nested operations, then the command'; a job that exits "
+        "inside that window may stay as a finished, unpurged entry until the next purge",
+        "real-process family: callable aliases in mixed pipelines never read their input (a blocked alias thread "
+        "would outlive the history); a pipeline ending in a callable alias is not generated",
     ]
 
 
